@@ -115,7 +115,9 @@ EDITS = ["add_node", "remove_node", "add_edge", "remove_edge", "change_weight", 
          "edge_meta_value", "edge_meta_add_key", "edge_meta_remove_key",
          "hg_meta_value", "hg_meta_add_key", "hg_meta_remove_key",
          # the two objects differ only in the ORDER of a list-valued metadata value
-         "node_meta_list_order", "edge_meta_list_order", "hg_meta_list_order"]
+         "node_meta_list_order", "edge_meta_list_order", "hg_meta_list_order",
+         # ... or only in an integer beyond 2**53 (distinct ints, equal as floats)
+         "node_meta_big_int", "edge_meta_big_int", "hg_meta_big_int", "weight_big_int"]
 MARK = "CHANGED"
 
 
@@ -217,10 +219,19 @@ def apply_edit(T, U, e, kind):
                 # longer mentions the weightedness, only is_weighted() differs
                 X["hg_bare"] = True
         T2["weighted"] = not T["weighted"]
-    elif kind.endswith("_list_order"):
+    elif kind == "weight_big_int":
+        if not keys or not T["weighted"]:
+            return None
+        key = keys[e["pick"] % len(keys)]
+        T1["edges"][key][0], T2["edges"][key][0] = 2 ** 53, 2 ** 53 + 1
+    elif kind.endswith("_list_order") or kind.endswith("_big_int"):
         a, b = [1, 2, "x"], [2, 1, "x"]
         if e["pick2"] % 2:
             a, b = [0.5, 1, [3, 4]], [0.5, 1, [4, 3]]   # nested list
+        if kind.endswith("_big_int"):
+            a, b = 2 ** 53, 2 ** 53 + 1
+            if e["pick2"] % 2:
+                a, b = {"p": 1700000000000000000}, {"p": 1700000000000000001}
         if kind.startswith("node_"):
             if not nodes:
                 return None
@@ -274,7 +285,8 @@ def check_edit(case, ctx):
         c1, c2 = B.target_as_content(k, T1), B.target_as_content(k, T2)
         if c1 == c2 and B._same_types(c1, c2):
             raise HarnessError("edit %r did not change the content" % (kind,))
-        if kind.startswith("flip_weighted") or kind.endswith("_list_order"):
+        if (kind.startswith("flip_weighted") or kind.endswith("_list_order")
+                or kind.endswith("_big_int")):
             # the only edits that also adjust the first content
             hx, bx = B.build(T1, U, case["a"], hash_fn=_hash())
             v1 = _hash_checked(hx, "the first object")
